@@ -9,7 +9,7 @@ TRUSTED = ['std collections (BTreeMap order, VecDeque, HashSet with an ideal has
 
 def gen_cases(ctx):
     rnd = ctx['rnd']; tier = ctx['tier']
-    n = 300 if tier == 'quick' else 12000
+    n = 2500 if tier == 'quick' else 12000
     out = []
     for i in range(n):
         cfg = gen.pipeline_cfg(rnd)
